@@ -240,6 +240,9 @@ func (g *gen) simpleErr() M {
 		sevs := []string{"ERROR", "FATAL", "PANIC", "WARNING", "NOTICE", "DEBUG", "INFO", "LOG"}
 		return M{"base": "boom " + g.text(8), "layers": []any{M{"d": "sev", "v": sevs[g.rng.Intn(len(sevs))]}}}
 	}
+	if g.chance(0.15) {
+		return M{"base": "boom " + g.text(8), "layers": []any{M{"d": "code", "v": g.pick("08006", "08P01", "57P01", "57P03", "57014", "53300")}}}
+	}
 	return M{"base": "boom " + g.text(8), "layers": []any{}}
 }
 
@@ -755,7 +758,9 @@ func (g *gen) richErr() M {
 	n := g.rng.Intn(11)
 	layers := []any{}
 	// (codes need not have five characters: a class-only or mistyped code is sent as it is)
-	codes := []string{"22012", "23505", "42601", "XX000", "XX001", "P0001", "00000", "57014", "XXUUU", "23", "P001", "0"}
+	codes := []string{"22012", "23505", "42601", "XX000", "XX001", "P0001", "00000", "57014", "XXUUU", "23", "P001", "0",
+		// (the severity of an error is what its decorations say, ERROR when they say nothing - whatever the code)
+		"08006", "08P01", "08000", "57P01", "57P02", "57P03", "53300", "28P01"}
 	sevs := []string{"ERROR", "FATAL", "PANIC", "WARNING", "NOTICE", "DEBUG", "INFO", "LOG"}
 	for i := 0; i < n; i++ {
 		switch g.rng.Intn(7) {
@@ -764,11 +769,11 @@ func (g *gen) richErr() M {
 		case 1:
 			layers = append(layers, M{"d": "sev", "v": sevs[g.rng.Intn(len(sevs))]})
 		case 2:
-			layers = append(layers, M{"d": "hint", "v": g.errText()})
+			layers = append(layers, M{"d": "hint", "v": g.maybeEmpty()})
 		case 3:
-			layers = append(layers, M{"d": "detail", "v": g.errText()})
+			layers = append(layers, M{"d": "detail", "v": g.maybeEmpty()})
 		case 4:
-			layers = append(layers, M{"d": "cons", "v": g.errText()})
+			layers = append(layers, M{"d": "cons", "v": g.maybeEmpty()})
 		case 5:
 			layers = append(layers, M{"d": "wrap", "v": g.errText()})
 		case 6:
@@ -789,6 +794,15 @@ func (g *gen) richErr() M {
 		base = "" // an error without text: the message field is mandatory and is sent empty
 	}
 	return M{"base": base, "layers": layers}
+}
+
+// maybeEmpty: a decoration may be set to the empty text (E19: whether the field is then sent empty or left out is
+// not prescribed - but an outer empty decoration still hides an inner one of its kind)
+func (g *gen) maybeEmpty() string {
+	if g.chance(0.12) {
+		return ""
+	}
+	return g.errText()
 }
 
 func (g *gen) behC17() M {
